@@ -2,6 +2,8 @@
 """tools/mut.py <check ids,comma> <file under /repo> <old> <new>  — apply a one-spot mutation to /repo,
 run the quick checks, restore the file. For validating monitors during development."""
 import subprocess, sys, os
+import os as _os
+VERIF_HOME = _os.environ.get("VERIF_HOME") or _os.path.dirname(_os.path.dirname(_os.path.abspath(__file__)))
 ids, path, old, new = sys.argv[1], sys.argv[2], sys.argv[3], sys.argv[4]
 p = os.path.join("/repo", path)
 s = open(p).read()
@@ -15,7 +17,7 @@ try:
     else:
         for i in ids.split(","):
             import signal
-            pr = subprocess.Popen(["/verif/check", i, "quick"], stdout=subprocess.PIPE, text=True, start_new_session=True)
+            pr = subprocess.Popen([VERIF_HOME + "/check", i, "quick"], stdout=subprocess.PIPE, text=True, start_new_session=True)
             try:
                 so, _ = pr.communicate(timeout=int(os.environ.get("MUT_TIMEOUT", "420")))
             except subprocess.TimeoutExpired:
